@@ -44,6 +44,10 @@ KNOWN_UNSUPPORTED = {
               'argument about the class graph (9.5i)',
     'C08-g1': 'sentinel-free frame counting in the coroutine processor: the '
               'sentinel rules do not model it (9.5i)',
+    'C06-h1': 'subclasses pushed by their position among the bases: an '
+              'argument about the class graph (9.5j)',
+    'C16-h1': 'conflict established by looking into the top layer of the '
+              'receiving map: rests on the back-link invariants (9.5j)',
 }
 
 
